@@ -316,3 +316,85 @@ def fmt_volume(ex, v):
 def as_float(ex, v):
     """float(v) for numeric v (spec side: numeric inputs only)"""
     return lib.to_float(ex, v)
+
+
+# ----------------------------------------------------------------------------- hex strings (C12)
+
+HEXVAL = z3.Function("hexval", z3.StringSort(), z3.IntSort())
+HEXDIGITS = "0123456789ABCDEF"
+
+
+def _hex_instances(ex, t, depth=0):
+    """Instances of the recursive definition of hexval for the syntactic shape of t:
+       hexval(DIGITS[x]) = x ; hexval(s ++ DIGITS[x]) = 16*hexval(s) + x ; hexval("0" ++ s) = hexval(s)"""
+    facts = []
+    if z3.is_string_value(t):
+        sv = t.as_string()
+        if sv and all(ch in HEXDIGITS for ch in sv):
+            facts.append(HEXVAL(t) == int(sv, 16))
+        return facts
+    k = t.decl().kind()
+    if k == z3.Z3_OP_SEQ_EXTRACT:
+        base, off, ln = t.children()
+        if z3.is_string_value(base) and base.as_string() == HEXDIGITS and z3.is_int_value(ln) and ln.as_long() == 1:
+            facts.append(z3.Implies(z3.And(off >= 0, off < 16), HEXVAL(t) == off))
+        return facts
+    if k == z3.Z3_OP_SEQ_CONCAT:
+        ch = t.children()
+        last = ch[-1]
+        prefix = ch[0] if len(ch) == 2 else z3.Concat(*ch[:-1])
+        if last.decl().kind() == z3.Z3_OP_SEQ_EXTRACT:
+            base, off, ln = last.children()
+            if z3.is_string_value(base) and base.as_string() == HEXDIGITS:
+                facts.append(z3.Implies(z3.And(off >= 0, off < 16), HEXVAL(t) == 16 * HEXVAL(prefix) + off))
+                if depth < 3:
+                    facts.extend(_hex_instances(ex, prefix, depth + 1))
+        first = ch[0]
+        if z3.is_string_value(first) and first.as_string() == "0":
+            rest = ch[1] if len(ch) == 2 else z3.Concat(*ch[1:])
+            facts.append(HEXVAL(t) == HEXVAL(rest))  # a leading zero does not change the value
+            if depth < 3:
+                facts.extend(_hex_instances(ex, rest, depth + 1))
+        return facts
+    if k == z3.Z3_OP_ITE:
+        c, a, b = t.children()
+        facts.extend(_hex_instances(ex, a, depth + 1))
+        facts.extend(_hex_instances(ex, b, depth + 1))
+    return facts
+
+
+@spec
+def hexval(ex, s):
+    """value of an upper-case hexadecimal numeral (recursive definition on the last digit)"""
+    t = term(s)
+    for f in _hex_instances(ex, t):
+        ex.p.assume(f)
+    return Sym(HEXVAL(t), "int")
+
+
+@spec
+def substr(ex, s, lo, hi):
+    """s[lo:hi] for 0 <= lo <= hi <= len(s)"""
+    t = term(s)
+    return Sym(z3.SubString(t, term(lo, "int"), term(hi, "int") - term(lo, "int")), "str")
+
+
+@spec
+def char_code(ex, s, i):
+    """ord(s[i])"""
+    return Sym(z3.StrToCode(z3.SubString(term(s), term(i, "int"), 1)), "int")
+
+
+@spec
+def hexdigit(ex, x):
+    """the upper-case hexadecimal digit of 0 <= x < 16"""
+    if isinstance(x, int):
+        return HEXDIGITS[x]
+    return Sym(z3.SubString(z3.StringVal(HEXDIGITS), term(x, "int"), 1), "str")
+
+
+@spec
+def hex2(ex, n):
+    """two-digit upper-case hexadecimal numeral of 0 <= n <= 255"""
+    nt = term(n, "int")
+    return Sym(z3.Concat(z3.SubString(z3.StringVal(HEXDIGITS), nt / 16, 1), z3.SubString(z3.StringVal(HEXDIGITS), nt % 16, 1)), "str")
